@@ -118,3 +118,21 @@ PROPS["C08"] = dict(streams=["C08"], kernel_cases=100, timeout=600, rule=JSON_RU
 PROPS["C17"] = dict(streams=["C17", "C17p"], kernel_cases=150, timeout=600,
     rule="random object trees built through NewPoint/NewPointZ/NewSimplePoint/NewRect/NewLineString/NewPolygon (incl. nil)/NewCircle/NewMulti*/NewGeometryCollection/NewFeatureCollection/NewFeature with finite grid values, NaN and +-Inf ordinates, 0-5 positions per series, and member strings (JSON objects with nested values rendered with random whitespace, the empty object with inner whitespace, non-object and invalid texts); per object: JSON()==String()==MarshalJSON()==AppendJSON(nil); AppendJSON onto a prefix with six spare capacities leaves the prefix untouched and appends exactly those bytes; the bytes are one valid JSON object for two independent tokenizers, with the kind's GeoJSON type name and coordinate nesting depth, no bare NaN/Inf; bytes compared with the Coq model of the writers; plus the grammar/mutant document stream of C06 for objects built through Parse (output valid JSON, spellings agree, AppendJSON appends). non-trivial: all; distinct = distinct case lines",
     trusted_base=JSON_TB, assumptions=["negative zero is not generated (the grid has no -0; strconv prints it as -0)", "member texts containing a top-level \"feature\" key (sjson.Delete path) are not generated"], partial=["that emit's bytes are the text of a JSON tree is checked per case, not proved for all objects"])
+
+GEO_TB = ["Coq 8.16.1 kernel; the stdlib real-number axioms (ClassicalDedekindReals.sig_forall_dec, sig_not_dec, FunctionalExtensionality.functional_extensionality_dep, Classical_Prop.classic) as Print Assumptions reports them",
+          "Interval 4.x tactic (coq-interval, uses primitive integers / BigZ; kernel-checked enclosures) for the per-input tie",
+          "the real-valued model coq/Sphere.v is hand-written from geo/geo.go and circle.go (modelled, not verified); Go's math package (Sin, Cos, Asin, Atan2, Hypot, Mod) is outside the model and is tied per input by the certified enclosures, not for all inputs",
+          "the clause flags are computed by the harness from the implementation's own float64 answers with the tolerances of the property statements (harness/geo.go)",
+          "tools/geo_goals.py (float64 bits -> exact rationals, goal text)"]
+PROPS["C15"] = dict(streams=["C15"], kernel_cases=0, timeout=600,
+    rule="random pairs of locations (poles, +-1e-9 of poles, antimeridian, antipodal and neighbouring pairs), distances 0, sub-millimetre, around 0.3 m, metre, km scales, near half the circumference, all bearings incl. multiples of 45 deg; per case 10 clause flags (symmetric, zero, range, destination in range, distance back, bearing back, haversine monotone, metres<->haversine, normalisation idempotent / haversine unchanged, semicircle round trip) + a sample of cases certified by interval arithmetic against the real-valued model. non-trivial: all; distinct = distinct case lines",
+    trusted_base=GEO_TB, assumptions=["bearing-back clause applied for d >= 1 m, |lat| <= 89 deg, d <= half circumference - 1000 km, tolerance 1e-6 deg scaled by conditioning 1/(sin(d/R) cos lat)"],
+    partial=["theorems are about real-valued formulas; float64 rounding is bounded per sampled input (interval), not for all inputs", "destination distance-back and bearing-back are checked as flags, not proved over the reals"])
+PROPS["C14"] = dict(streams=["C14"], kernel_cases=0, timeout=600,
+    rule="random centres (poles, antimeridian) and radii (0, sub-millimetre, around the 0.28 m resolution guard, metre..half circumference, pole-grazing and antimeridian-grazing within 1e-6 relative); per case 5 flags: no NaN, inside world bounds, 48 probe locations (bearings every 45 deg, around the tangent bearings, random) whose own great-circle distance is <= radius lie in the rectangle within 1 cm on the ground (longitudes modulo 360), full longitude range when the disc reaches a pole, degenerate rectangle for unresolvable radii; + a sample certified by interval arithmetic (latitude band, tangent-longitude law). non-trivial: all; distinct = distinct case lines",
+    trusted_base=GEO_TB, assumptions=["probe locations are proposed by DestinationPoint and accepted by DistanceTo <= radius (DistanceTo is certified against the model by the C15 goals)"],
+    partial=["over the reals only the latitude band is proved (disc_latitude_band); the tangent-longitude bound and the pole / antimeridian branches are checked by flags and certified samples"])
+PROPS["C13"] = dict(streams=["C13"], kernel_cases=0, timeout=600,
+    rule="random circles (any centre, radii over all scales, 0..4096 steps) against probe points placed inside, outside, at 1e-4 relative of the radius and in the sliver between the circle and its polygon approximation, and against second circles at controlled centre distances (around the sum and the difference of the radii), different step counts; per case 10 flags: Contains/Intersects of Point and SimplePoint = (distance <= radius) outside the tolerance band, operand order, monotone in the radius, circle-contains-circle only if d + rB <= rA, circle-intersects-circle iff d <= rA + rB, JSON round trip to an identical Circle, polygon approximation closed / centred / rect contains centre; + a sample of point decisions certified by interval arithmetic against the model. non-trivial: all; distinct = distinct case lines",
+    trusted_base=GEO_TB, assumptions=["negative, NaN, infinite and larger-than-half-circumference radii are used for serialisation and totality only"],
+    partial=["the Circle point test is proved equivalent to 'distance <= radius' over the reals (circle_contains_point_spec); circle-circle tests and the polygon approximation are checked by flags"])
